@@ -106,12 +106,23 @@ func writeDuration(f io.ReadWriteSeeker, d time.Duration) error {
 
 	mvhd.DurationV0 = uint32(d / time.Millisecond)
 
+	// amp4.Marshal() writes one byte at a time. Marshal into a buffer and
+	// write it with a single call, otherwise the file is updated with one system call
+	// per byte and, if the process is interrupted in the middle,
+	// the header is left with a partially-written, non-zero duration
+	// that is trusted by the playback server.
+	var mvhdBuf bytes.Buffer
+	_, err = amp4.Marshal(&mvhdBuf, &mvhd, amp4.Context{})
+	if err != nil {
+		return err
+	}
+
 	_, err = f.Seek(moovPos, io.SeekStart)
 	if err != nil {
 		return err
 	}
 
-	_, err = amp4.Marshal(f, &mvhd, amp4.Context{})
+	_, err = f.Write(mvhdBuf.Bytes())
 	if err != nil {
 		return err
 	}
